@@ -20,9 +20,19 @@ def main():
   prop, fn = sys.argv[1], sys.argv[2]
   payload = json.loads(sys.stdin.read() or '{}')
   try:
-    spec = importlib.util.spec_from_file_location(f'replay_{prop}', os.path.join(HERE, f'{prop}.py'))
-    mod = importlib.util.module_from_spec(spec)
-    spec.loader.exec_module(mod)
+    def load(name):
+      spec = importlib.util.spec_from_file_location(f'replay_{name}', os.path.join(HERE, f'{name}.py'))
+      mod = importlib.util.module_from_spec(spec)
+      spec.loader.exec_module(mod)
+      return mod
+    mod = load(prop)
+    if not hasattr(mod, fn):
+      # a contract shared between properties names the stand-in / replay of the property it was written for
+      for other in sorted(f[:-3] for f in os.listdir(HERE) if f[0] == 'C' and f[1:3].isdigit() and f.endswith('.py') and f[:-3] != prop):
+        m2 = load(other)
+        if hasattr(m2, fn):
+          mod = m2
+          break
     res = getattr(mod, fn)(payload)
   except Exception:   # pylint: disable=broad-exception-caught
     res = dict(error=traceback.format_exc()[-3000:])
